@@ -324,7 +324,7 @@ func TestC14_IDTokens(t *testing.T) {
 			}
 		}
 		nontrivial := nIDTokens > 0 || len(blockers) == 1
-		h.Case(fmt.Sprintf("C14/%s/%s/%s/%s/%s/%v/%s/%s/%s/%v/%d", k.name, flow, ss.authRel, ss.presetExp, maxAge, nonce != "", prompt, hintKind, ss.subject != "", openidGranted, nIDTokens), nontrivial, func() any {
+		h.Case(fmt.Sprintf("C14/%s/%s/%s/%s/%s/%v/%s/%s/%v/%v/%d", k.name, flow, ss.authRel, ss.presetExp, maxAge, nonce != "", prompt, hintKind, ss.subject != "", openidGranted, nIDTokens), nontrivial, func() any {
 			return map[string]any{"case": log, "id_tokens_checked": nIDTokens, "blockers": blockers}
 		})
 		h.Label("flow=" + flow)
